@@ -707,12 +707,25 @@ class Interp:
         if callable(f):
             if getattr(f, '_pyvc_model', False) or getattr(getattr(f, '__func__', None), '_pyvc_model', False) \
                     or getattr(type(getattr(f, '__self__', None)), '_pyvc_model_class', False):
+                # a call the model's signature cannot take (an option the model does not know) is outside the model: undecided,
+                # neither a Python TypeError of the code under contract nor a crash of the checker
+                try:
+                    import inspect
+                    inspect.signature(f).bind(*args, **kwargs)
+                except TypeError as e:
+                    raise Unsupported(f'{getattr(f, "__qualname__", getattr(f, "__name__", f))}: call outside the model ({e})')
+                except ValueError:
+                    pass
                 return f(*args, **kwargs)
             try:
                 return f(*args, **kwargs)
             except REAL_EXC as e:
                 if isinstance(e, (PyRaise, Unsupported)):
                     raise
+                if isinstance(e, (TypeError, AttributeError)) and any(
+                        getattr(type(x), '_pyvc_model_class', False) or isinstance(x, core.SVal) for x in list(args) + list(kwargs.values())):
+                    # a real library function that cannot digest a symbolic stand-in: a limit of the models, not a TypeError of the code
+                    raise Unsupported(f'{getattr(f, "__qualname__", getattr(f, "__name__", f))} applied to a symbolic value ({type(e).__name__}: {e})')
                 raise PyRaise(ExcObj(type(e), e.args))
         raise PyRaise(ExcObj(TypeError, (f'{f!r} is not callable',)))
 
